@@ -2,7 +2,9 @@ package props
 
 import (
 	"fmt"
+	"go/ast"
 	"go/constant"
+	"sort"
 	"strings"
 	"unicode"
 	"unicode/utf8"
@@ -79,7 +81,7 @@ func runC01(p *core.Prog, r *core.Report) {
 	r.Rule("C01-R2", "sanitizer: inside the line only constants, the escaping function, closed-alphabet formatters, encoder output (minus its newline) and the handler's own pre-rendered bytes are appended; colour-only sinks are out of scope", 20)
 	r.Rule("C01-R3", "escape table: evaluated over all 128 ASCII bytes and every Unicode scalar value, a character is passed through raw only if JSON allows it inside a string, and otherwise is replaced by exactly one legal escape denoting it (invalid UTF-8 → \\ufffd)", 3)
 	r.Rule("C01-R4", "error containment: every path of the marshal helper appends something (an encoding error is rendered as an escaped string, the value position never stays empty)", 1)
-	r.Rule("C01-R5", "source location: every function that captures the caller with runtime.Callers(3, …) is called only from entry points that are not themselves called from inside the logger package (fixed stack depth)", 3)
+	r.Rule("C01-R5", "source location: a function that captures the caller with runtime.Callers(2+d, …) is reached through exactly d frames of the package — d-1 private levels nobody outside can enter, then entry points that are not themselves called from inside the logger package (fixed stack depth)", 1)
 	r.NotDecided = append(r.NotDecided, "that decoded values equal the inputs (round-trip of numbers/time through strconv/time; U+FFFD substitution result)", "attribute order beyond: emitted in iteration order of the same loops")
 	r.Trusted = append(r.Trusted, "strconv.AppendInt/Uint/Bool output is a JSON number/literal", "Time.AppendFormat(RFC3339Nano) emits only digits, '-', ':', '.', 'T', 'Z', '+'", "encoding/json Encoder.Encode writes one valid JSON value followed by '\\n'", "slog.Value.Resolve never returns a LogValuer kind")
 
@@ -307,6 +309,7 @@ var _ = core.ModPath
 // checkCallerFrames: functions that capture the program counter with runtime.Callers(skip, …) assume a fixed
 // number of logger frames above the user's call.
 func checkCallerFrames(p *core.Prog, r *core.Report, rule string) {
+	cm := staticCalls(p)
 	for _, fn := range p.PkgFuncs("logger") {
 		sx.Instrs(fn, func(in ssa.Instruction) {
 			c, ok := in.(*ssa.Call)
@@ -315,23 +318,54 @@ func checkCallerFrames(p *core.Prog, r *core.Report, rule string) {
 			}
 			skip, isC := sx.ConstInt(c.Call.Args[0])
 			var deep []string
-			okDepth := isC && skip == 3
+			okDepth := isC && skip >= 2 && skip <= 6
 			if !isC {
 				deep = append(deep, "skip count is not constant")
-			} else if skip != 3 {
-				deep = append(deep, fmt.Sprintf("skip count %d: runtime.Callers → %s → exported method → caller needs 3", skip, fn.Name()))
+			} else if !okDepth {
+				deep = append(deep, fmt.Sprintf("skip count %d is outside what the rule follows (2..6)", skip))
 			}
-			// every caller of fn must be an entry point: not itself called from inside the logger package
-			for _, cs := range staticCalls(p).callers[fn] {
-				for _, cs2 := range staticCalls(p).callers[rootFn(cs.Caller)] {
-					if rootFn(cs2.Caller).Pkg == fn.Pkg {
+			// skip = 2 + d: runtime.Callers, the capturing function, d-1 private helpers above it, the entry point the user
+			// called. Walk d levels of static callers: every function below the top level is private to the package (nobody
+			// outside can enter the chain half-way), every function at the top level is an entry point — not itself called
+			// from inside the package (that would be one frame more than the skip count assumes).
+			level := map[*ssa.Function]bool{rootFn(fn): true}
+			nTop := 0
+			for d := int64(1); okDepth && d <= skip-2; d++ {
+				next := map[*ssa.Function]bool{}
+				for f := range level {
+					if ast.IsExported(f.Name()) {
 						okDepth = false
-						deep = append(deep, fmt.Sprintf("%s reaches %s through %s: one frame more than the skip count assumes, the record's source is a line of the logger itself", fnName(cs2.Caller), fn.Name(), fnName(cs.Caller)))
+						deep = append(deep, fmt.Sprintf("%s is %d frame(s) below the assumed entry point but exported: called directly by a user the record's source is off by that many frames", fnName(f), skip-2-d+1))
+					}
+					if len(cm.callers[f]) == 0 {
+						okDepth = false
+						deep = append(deep, fmt.Sprintf("%s has no static caller: the frame the skip count points at does not exist on that path", fnName(f)))
+					}
+					for _, cs := range cm.callers[f] {
+						g := rootFn(cs.Caller)
+						if g.Pkg != fn.Pkg {
+							okDepth = false
+							deep = append(deep, fmt.Sprintf("%s is called from %s outside the package with %d frame(s) still to skip", fnName(f), fnName(g), skip-2-d+1))
+							continue
+						}
+						next[g] = true
+					}
+				}
+				level = next
+			}
+			if okDepth {
+				for f := range level {
+					nTop++
+					for _, cs := range cm.callers[f] {
+						if g := rootFn(cs.Caller); g.Pkg == fn.Pkg {
+							okDepth = false
+							deep = append(deep, fmt.Sprintf("%s reaches %s through %s: one frame more than the skip count assumes, the record's source is a line of the logger itself", fnName(g), fn.Name(), fnName(f)))
+						}
 					}
 				}
 			}
-			r.Check(okDepth, rule, "caller frame: "+fn.Name()+" is reached with a fixed stack depth", p.Pos(in.Pos()), fmt.Sprintf("runtime.Callers(3) and %d direct entry points, none called from inside the package", len(staticCalls(p).callers[fn])), strings.Join(uniq(deep), "; "))
+			sort.Strings(deep)
+			r.Check(okDepth, rule, "caller frame: "+fn.Name()+" is reached with a fixed stack depth", p.Pos(in.Pos()), fmt.Sprintf("runtime.Callers(%d): %d private level(s) and %d entry points, none called from inside the package", skip, skip-2, nTop), strings.Join(uniq(deep), "; "))
 		})
 	}
-
 }
